@@ -27,6 +27,11 @@ for sid in seeds:
     fired, broken = {}, []
     order = [sid[:3]] + [c for c in claimed if c != sid[:3]]
     order = [p for p in order if p in claimed]
+    if os.environ.get("MATRIX_OWN_ONLY"):
+        # quick mode: the seed's own property plus the properties that share rules with it
+        SHARE = {"C01": ["C02", "C04", "C12", "C17"], "C02": ["C01", "C04", "C12"], "C03": ["C17"], "C04": ["C01", "C02"], "C08": ["C11", "C15"], "C11": ["C08", "C15", "C16"], "C12": ["C01", "C02"],
+                 "C13": ["C14"], "C14": ["C13"], "C15": ["C08", "C11"], "C16": ["C11"], "C17": ["C01", "C03"], "C06": ["C18"], "C07": ["C18"], "C18": ["C06", "C07"]}
+        order = [sid[:3]] + [p for p in SHARE.get(sid[:3], []) if p in claimed]
     import concurrent.futures as cf
     outs = {}
     if order:
